@@ -1012,6 +1012,11 @@ def replay(path):
     text = rec.get("input")
     if isinstance(text, dict):
         print("sanity_check_format_result:", real_sanity(text["formatted"], text["original"]))
+        ft, e1 = tokenizer.tokenize(text["formatted"], "")
+        ot, e2 = tokenizer.tokenize(text["original"], "")
+        if not e1 and not e2:
+            print("spec oracle: the token streams", "agree" if spec_sanity(ft, ot) else "differ",
+                  "(expected answer: %s)" % ("ok" if spec_sanity(ft, ot) else "a reported difference"))
         return 0
     k = rec.get("indent_width", 2)
     toks, tree = parse(text)
